@@ -985,12 +985,12 @@ func main() {
 	} else {
 		if focus == "C04" || focus == "C05" {
 			logDir0, _ := os.MkdirTemp("", "verif-sched-probe")
-			mult := 1
+			mult := 3
 			if tier == "thorough" {
-				mult = 8
+				mult = 40
 			}
 			if tier == "search" {
-				mult = 3
+				mult = 6
 			}
 			if focus == "C04" {
 				cases = append(cases, handlerCases(rng, 8*mult)...)
